@@ -4,8 +4,13 @@
              code 0 Mark(id) 1 Unmark(id) 2 Test(id) 3 Next(id);
              obs: Mark/Unmark 0 (returned) or 2 (panicked: the history stops there),
                   Test 0/1, Next the returned int.
+     op 2  traversals:          18 2 <graph> nroots { root status <pre> <post> <revpost> <euler> <enterOnly> <exitOnly> }* pure
+             <graph> = n { deg target* }^n ; lists are count-prefixed; euler events are 2*node (Enter)
+             or 2*node+1 (Exit); status 0 = all calls returned, 2 = a call panicked (lists empty);
+             revpost = Reverse(PostOrder(g, root)); enterOnly / exitOnly = Euler with one nil callback;
+             pure = 1 iff the adjacency lists are unchanged after all calls.
    Verdict tag = 0 for a trivial case, else 256*op + branch bits (listed per op). *)
-From MM Require Import Base.Num Model.Marks.
+From MM Require Import Base.Num Base.GCGraph Model.Marks Spec.Dfs Model.Order.
 Open Scope Z_scope.
 
 Definition pfail {A} : parser A := fun _ => None.
@@ -50,11 +55,103 @@ Definition check_marks : parser (list Z) :=
         | (bits, Some (idx, r)) => verdict V_MISMATCH (mk_tag 1 (Z.lor bits 1)) idx [1; r]
         end).
 
+(* ------------------------------------------------------------------ graph decoding *)
+(* n { deg target* }^n, one structural pass over the line (no per-list length scans) *)
+Fixpoint pg_go (l : list Z) (k d : Z) (cur : list N) (acc : graph) {struct l} : option (graph * list Z) :=
+  if (d <? 0) && (k =? 0) then Some (rev acc, l) else
+  match l with
+  | [] => None
+  | x :: r =>
+      if x <? 0 then None
+      else if d <? 0 then (if x =? 0 then pg_go r (k - 1) (-1) [] ([] :: acc) else pg_go r k x [] acc)
+      else if d =? 1 then pg_go r (k - 1) (-1) [] (rev (Z.to_N x :: cur) :: acc)
+      else pg_go r k (d - 1) (Z.to_N x :: cur) acc
+  end.
+Definition p_graph : parser graph := fun l =>
+  match l with n :: r => if n <? 0 then None else pg_go r n (-1) [] [] | [] => None end.
+
+Fixpoint ptake (l : list Z) (k : Z) (acc : list Z) {struct l} : option (list Z * list Z) :=
+  if k <=? 0 then Some (rev acc, l) else
+  match l with [] => None | x :: r => ptake r (k - 1) (x :: acc) end.
+(* count-prefixed list of integers *)
+Definition p_Zs : parser (list Z) := fun l =>
+  match l with k :: r => if k <? 0 then None else ptake r k [] | [] => None end.
+
+Definition ZsN (l : list N) : list Z := map Z.of_N l.
+Definition ev_code (e : event) : Z := match e with Enter n => 2 * Z.of_N n | Exit n => 2 * Z.of_N n + 1 end.
+Definition first_false (l : list bool) : option Z :=
+  (fix go (l : list bool) (i : Z) := match l with [] => None | true :: t => go t (i + 1) | false :: _ => Some i end) l 0.
+
+(* ------------------------------------------------------------------ op 2: traversals *)
+Record trav_obs := mkTrav { t_root : Z; t_status : Z; t_pre : list Z; t_post : list Z; t_rev : list Z;
+                            t_eul : list Z; t_ent : list Z; t_ext : list Z }.
+Definition p_trav : parser trav_obs :=
+  do r <- pZ; do st <- pZ; do a <- p_Zs; do b <- p_Zs; do c <- p_Zs; do d <- p_Zs; do e <- p_Zs; do f <- p_Zs;
+  pret (mkTrav r st a b c d e f).
+
+Definition oZs (o : option (list N)) : option (list Z) := option_map ZsN o.
+Definition oeq (expected : option (list Z)) (obs : list Z) : bool :=
+  match expected with Some l => list_Z_eqb l obs | None => false end.
+
+(* branch bits: 1 an edge to an already visited node was skipped, 2 some node is unreachable,
+   4 a visited node id >= 1024 (mark storage grew), 8 root has a self-loop, 16 more than one node
+   visited, 32 root outside the graph (the call panics), 64 more than 1024 nodes visited *)
+Definition trav_bits (out : N -> list N) (n : N) (root : N) (pre : list N) : Z :=
+  let deg := fold_left (fun a u => (a + length (out u))%nat) pre O in
+  let k := length pre in
+  Z.lor (if (k <? S deg)%nat && negb (S deg =? k)%nat then 1 else 0)
+  (Z.lor (if (N.of_nat k <? n)%N then 2 else 0)
+  (Z.lor (if existsb (fun v => (1024 <=? v)%N) pre then 4 else 0)
+  (Z.lor (if existsb (N.eqb root) (out root) then 8 else 0)
+  (Z.lor (if (1 <? k)%nat then 16 else 0)
+         (if (1024 <? k)%nat then 64 else 0))))).
+
+Definition trav_one (out : N -> list N) (n : N) (fuel : nat) (o : trav_obs) : Z * option Z :=
+  if (t_root o <? 0) || (Z.of_N n <=? t_root o) then
+    (32, if t_status o =? 2 then None else Some 0)
+  else
+    let r := Z.to_N (t_root o) in
+    let pre := preorder out fuel r in
+    let post := postorder out fuel r in
+    let eul := euler out fuel r in
+    let bits := match pre with Some l => trav_bits out n r l | None => 0 end in
+    (bits,
+     first_false [ t_status o =? 0;
+                   oeq (oZs pre) (t_pre o);
+                   oeq (oZs post) (t_post o);
+                   oeq (oZs (option_map reverse post)) (t_rev o);
+                   oeq (option_map (map ev_code) eul) (t_eul o);
+                   oeq (option_map (map ev_code) (run_visit out true false fuel r)) (t_ent o);
+                   oeq (option_map (map ev_code) (run_visit out false true fuel r)) (t_ext o) ]).
+
+Fixpoint trav_all (out : N -> list N) (n : N) (fuel : nat) (l : list trav_obs) (idx bits : Z) : Z * option (Z * Z) :=
+  match l with
+  | [] => (bits, None)
+  | o :: t =>
+      let '(b, w) := trav_one out n fuel o in
+      match w with
+      | Some k => (Z.lor bits b, Some (idx, k))
+      | None => trav_all out n fuel t (idx + 1) (Z.lor bits b)
+      end
+  end.
+
+Definition check_trav : parser (list Z) :=
+  do g <- p_graph; do obs <- plist_any p_trav; do pure <- pZ;
+  pend (if negb (g_wfb g) then verdict V_MALFORMED 0 (-1) [2]
+        else
+          let out := gm_out (gm_build g) in
+          match trav_all out (g_n g) (S (length g)) obs 0 0 with
+          | (bits, Some (idx, k)) => verdict V_MISMATCH (mk_tag 2 (Z.lor bits 128)) idx [2; k]
+          | (bits, None) =>
+              if pure =? 1 then verdict V_OK (mk_tag 2 bits) (-1) []
+              else verdict V_MISMATCH (mk_tag 2 (Z.lor bits 128)) (-1) [2; 99]
+          end).
+
 (* ------------------------------------------------------------------ dispatch *)
 Definition check_C18 (line : list Z) : list Z :=
   match line with
   | 18 :: op :: rest =>
-      let p := if op =? 1 then check_marks else pfail in
+      let p := if op =? 1 then check_marks else if op =? 2 then check_trav else pfail in
       match p rest with
       | Some (v, _) => v
       | None => verdict V_MALFORMED 0 (-1) [op]
